@@ -48,6 +48,7 @@ type cfCfg struct {
 	racers    []string // one thread each
 	rwq       bool     // ConnectReply.ReplyWithoutQueue
 	wdelay    bool     // ConnectReply.WriteDelay 10 ms (the batching writer goroutine)
+	flushed   bool     // with wdelay: the setup lets the delay elapse, the connect batch is on the wire before the concurrent phase
 	subs      string   // server-side subscriptions of the connect reply: s1 (positioned) | s2 (plain, join/leave) | s1+s2
 }
 
@@ -55,6 +56,9 @@ func (c cfCfg) name() string {
 	wd := ""
 	if c.wdelay {
 		wd = "/wdelay"
+	}
+	if c.flushed {
+		wd += "-flushed"
 	}
 	return fmt.Sprintf("%s/R:%s/%s/rwq%v/subs:%s%s", c.transport, c.reader, strings.Join(c.racers, "+"), c.rwq, c.subs, wd)
 }
@@ -100,6 +104,9 @@ func cfVariants(tier string) []vsched.Variant {
 			{"ws", "none", "pub,ndisc", "s2", false, 1, 2},
 		}, 100)
 		add(cfCfg{transport: "dict", reader: "rpc", racers: []string{"close"}, subs: "s2", wdelay: true}, 2, 4, 100)
+		// the first frame of a dictionary connection is never encoded: with the connect batch already
+		// flushed, the reply of the concurrent phase is the first encoded frame (timer first + one preemption)
+		add(cfCfg{transport: "dict", reader: "rpc", racers: []string{"close"}, subs: "s2", wdelay: true, flushed: true}, 2, 4, 100)
 		return out
 	}
 	l := []x{
@@ -140,6 +147,8 @@ func cfVariants(tier string) []vsched.Variant {
 	mk(l, 280)
 	add(cfCfg{transport: "dict", reader: "rpc", racers: []string{"close"}, subs: "s2", wdelay: true}, 2, 4, 280)
 	add(cfCfg{transport: "dict", reader: "rpc", racers: []string{"ndisc"}, subs: "s2", wdelay: true}, 2, 8, 280)
+	add(cfCfg{transport: "dict", reader: "rpc", racers: []string{"close"}, subs: "s2", wdelay: true, flushed: true}, 3, 8, 280)
+	add(cfCfg{transport: "dict", reader: "rpc", racers: []string{"ndisc"}, subs: "s2", wdelay: true, flushed: true}, 2, 8, 280)
 	add(cfCfg{transport: "ws", reader: "rpc", racers: []string{"close"}, subs: "s2", wdelay: true}, 2, 8, 280)
 	return out
 }
@@ -421,6 +430,9 @@ func cfBody(cfg cfCfg) func() {
 			}
 		}
 		vsched.WaitIdle()
+		if cfg.flushed {
+			vsched.Advance(int64(20 * time.Millisecond)) // the writer's delay elapses: the connect batch is written
+		}
 		if cfg.wdelay {
 			vsched.SetHorizon(int64(50 * time.Millisecond)) // the batching writer's delay may elapse
 		}
